@@ -94,6 +94,55 @@ def applyBilinear [Add K] [Mul K] [Zero K] (v₁ v₂ : ND K) (form : Option (ND
   let prod ← matrixProduct intermed (v₂.expandRange v₂.rank 1) 2 2 .elementwise
   pure (prod.squeezeAxes [prod.rank - 1, prod.rank - 2])
 
+/-! ### projective objects -/
+
+/-- the eleven object classes of the properties; fixes `unit_ndims` / `aux_ndims`
+(projective.py / hyperbolic.py `__init__` of each class) -/
+inductive Kind
+  | point | pair | segment | geodesic | polygon | simplex | tangent | horosphere | hyperplane
+  | subspace | transformation
+  deriving DecidableEq, Repr
+
+def Kind.unitNdims : Kind → Nat
+  | .point => 1
+  | _ => 2
+
+def Kind.auxNdims : Kind → Nat
+  | .segment => 2
+  | .polygon => 3
+  | .tangent => 2
+  | _ => 0
+
+/-- `ProjectiveObject`: primary data, derived ("auxiliary") data kept beside it, dual data
+(only `ConvexPolygon`, `dual_ndims = 1`, carries any; kept for `apply`) -/
+structure Obj (K : Type) where
+  kind : Kind
+  proj : ND K
+  aux : Option (ND K)
+  dual : Option (ND K)
+
+/-- composite shape `obj.shape = proj_data.shape[:-unit_ndims]` (projective.py:311) -/
+def Obj.shape (X : Obj K) : List Nat := X.proj.shape.take (X.proj.shape.length - X.kind.unitNdims)
+
+/-- `Transformation.apply(obj, broadcast)` (projective.py:1198): `matrix_product` of the primary,
+auxiliary and dual data with `self.matrix`, each with its own unit rank; class kept.
+(The dual block is multiplied by the matrix itself — `_apply_to_data` is called without
+`dual=True` — which is what the code does.) -/
+def Obj.apply [Add K] [Mul K] [Zero K] (A : ND K) (X : Obj K) (mode : Bcast) : Except String (Obj K) :=
+  match matrixProduct X.proj A X.kind.unitNdims 2 mode with
+  | .error e => .error e
+  | .ok p =>
+    match (match X.aux with
+      | none => Except.ok none
+      | some a => (matrixProduct a A X.kind.auxNdims 2 mode).map some) with
+    | .error e => .error e
+    | .ok a' =>
+      match (match X.dual with
+        | none => Except.ok none
+        | some d => (matrixProduct d A 1 2 mode).map some) with
+      | .error e => .error e
+      | .ok d' => .ok ⟨X.kind, p, a', d'⟩
+
 /-- iteration over a composite object (`for u in obj`: python's legacy `__getitem__` protocol,
 projective.py:496 `__getitem__`, :502 `__len__`): `obj[0], obj[1], …` -/
 def iterItems (a : ND K) : List (ND K) := (List.range (a.shape.headD 0)).map fun k => a.sub [k]
